@@ -74,6 +74,7 @@ def borrow_obligations(prog, chk, rule, units=None):
 
 
 def run(prog, chk):
+    builder_close_table(prog, chk)
     chk.explanation = (
         "(R4) for every function of the 40 units and every pointer local that receives an object from a producer (derived from the callee's "
         "own body: its out-parameter only ever carries a fresh allocation, a new reference or another producer's result), an allocator or "
@@ -308,3 +309,61 @@ def store_value_table(prog, chk, rule):
             problems.append("a failed step is reported as success")
         chk.ob(rule, inst, not problems, "; ".join(problems) if problems else "events %s, payload list afterwards %s, status %s"
                % ([(e[0],) + tuple(str(x) for x in e[1:]) for e in ev], attached["v"], hex(q.ret) if isinstance(q.ret, int) else q.ret), loc=fn.loc(), fn=fn)
+
+
+def builder_close_table(prog, chk):
+    """KSI_SignatureBuilder_close builds the signature's TLV on first use; when a later step of the same call fails the builder must be
+    what it was before the call, otherwise a repeated close finds a half-built TLV, skips the construction and hands out (or rejects) a
+    truncated signature.  The function is evaluated for (TLV already there or not) x (which step fails): after a failing call
+    builder->sig->baseTlv is what it was before, and a TLV created by this call has been released."""
+    from ksirules.interp import TOP, Interp, Ptr, succeed_model
+    from ksirules.model import lvalue_key, strip
+    chk.rule("C19.rollback", "signature builder close: a failing call leaves no half-built TLV behind (decision table over failure points)", floor=12)
+    fn = prog.fn("KSI_SignatureBuilder_close", "signature_builder.c")
+    bp, lp, sp = [p["n"] for p in fn.params]
+    K = prog.const
+    steps = ["KSI_VerificationContext_init", "KSI_AggregationHashChainList_sort", "checkSignatureInternals", "KSI_TLV_new", "KSI_TlvTemplate_construct", "addRootLevel",
+             "KSI_Signature_clone", "KSI_SignatureVerifier_verify", "verdict"]
+    for had_tlv in (0, 1):
+        for fail in [None] + steps:
+            if had_tlv and fail in ("KSI_TLV_new", "KSI_TlvTemplate_construct"):
+                continue
+            freed = []
+
+            def mk(name):
+                def f(I, p, node, args):
+                    if name == "KSI_TLV_new" and fail != name:
+                        a = strip(node["a"][-1])
+                        I.write(p, I.canon(p, lvalue_key(a["e"], I.fn)), Ptr("NEWTLV"))
+                    if name == "KSI_Signature_clone" and fail != name:
+                        I.write(p, lvalue_key(strip(node["a"][1])["e"], I.fn), Ptr("CLONE"))
+                    if name == "KSI_SignatureVerifier_verify" and fail != name:
+                        I.write(p, lvalue_key(strip(node["a"][2])["e"], I.fn), Ptr("RESULT"))
+                    return 0x200 if fail == name else 0
+                return f
+            ov = {n: mk(n) for n in steps if n != "verdict"}
+            ov["KSI_TLV_free"] = lambda I, p, n, a: (freed.append(a[0]), TOP)[1]
+            ov["KSI_Signature_free"] = lambda I, p, n, a: TOP
+            ov["KSI_VerificationContext_clean"] = lambda I, p, n, a: TOP
+            ov["KSI_PolicyVerificationResult_free"] = lambda I, p, n, a: TOP
+            inputs = {bp: Ptr("B"), lp: 3, sp: Ptr("OUT"), "B->ctx": Ptr("ctx"), "B->sig": Ptr("SIG"), "B->noVerify": 0, "SIG->aggregationChainList": Ptr("CL"),
+                      "SIG->baseTlv": Ptr("OLDTLV") if had_tlv else 0, "RESULT->finalResult.resultCode": K("KSI_VER_RES_FAIL") if fail == "verdict" else K("KSI_VER_RES_OK")}
+            I = Interp(fn, inputs=inputs, call_model=succeed_model(prog, ov), on_unknown="stop", prog=prog)
+            paths = I.run()
+            chk.paths += len(paths)
+            inst = "close[TLV %s,%s]" % ("already built" if had_tlv else "not built yet", " nothing fails" if fail is None else " %s fails" % fail)
+            if len(paths) != 1 or paths[0].undetermined:
+                raise AnalysisBroken("KSI_SignatureBuilder_close: evaluation not determined for %s: %s" % (inst, [q.undetermined[:1] for q in paths]))
+            q = paths[0]
+            tlv_now = I.read(q, "SIG->baseTlv")
+            before = Ptr("OLDTLV") if had_tlv else 0
+            created = (not had_tlv) and fail not in steps[:4]
+            if fail is None:
+                out = [t[2] for t in q.stores("*" + sp)]
+                ok = q.ret == 0 and out[-1:] == [Ptr("SIG")] and I.read(q, "B->sig") == 0 and not freed
+                what = "expected KSI_OK, the signature handed out and the builder emptied; source: status %s, handed out %s, builder signature %s" % (q.ret, out, I.read(q, "B->sig"))
+            else:
+                ok = q.ret not in (0, TOP) and tlv_now == before and ((Ptr("NEWTLV") in freed) == created) and Ptr("OLDTLV") not in freed
+                what = "expected an error and the builder's TLV as before the call (%s)%s; source: status %s, TLV now %s, released %s" % (
+                    before, ", the TLV created by this call released" if created else "", hex(q.ret) if isinstance(q.ret, int) else q.ret, tlv_now, freed)
+            chk.ob("C19.rollback", inst, ok, what, loc=fn.loc(), fn=fn, nontrivial=created)
